@@ -2,7 +2,7 @@
 from .. import container
 from ..core import Sub, build_machine, run_history
 
-PROP = {'id': 'C03', 'level': 'exploration', 'technique': 'Hypothesis RuleBasedStateMachine generating add / remove / replace / setter histories (several write contexts, table lengths 1..16, pre-populated images incl. opaque block types); after every successful operation the raw file is parsed by an independent reader and checked for well-formedness; enumerated scripts (equal sizes, fill levels, 2^k tails, foreign images, two long-lived objects, contexts left by the caller\'s exception)', 'level_text': "Exploration of operation histories: the machine starts from Tdf.new or from a compact image written by the reference codec (N in 1..16, 0..N live blocks of the nine writable and seven undecodable types, garbage in don't-care bytes), issues operations the model predicts to succeed and parses the file with reftdf.parse_container after each one: signature/version/N unchanged, every live range after the table and inside the file, no two live ranges overlapping, unused slots of size 0.", 'level_note': 'Trusted: reftdf.parse_container and well_formed_problems. Initial images: Tdf.new, compact images, images with padding between blocks (well-formed but not compact, as foreign files may be) and the BTS capture itself (2.1 MB, eight blocks); free slots always trail and point at end of data. Files with an unused slot between live blocks or out-of-order blocks are outside the documented add algorithm and not generated here (C07 covers the hole case). If an operation the model expects to succeed raises, the history is abandoned here and reported by C11.', 'design_ref': 'DESIGN.md section 4, C03', 'rule': 'case = {init image, ops}; non-trivial = the history removes a non-last live block and later adds one, or fills the table completely; distinct by sha1 of the history', 'assumptions': ['live blocks of the initial image are in table order with trailing free slots pointing at end of data']}
+PROP = {'id': 'C03', 'level': 'exploration', 'technique': 'Hypothesis RuleBasedStateMachine generating add / remove / replace / setter histories (several write contexts, table lengths 1..16, pre-populated images incl. opaque block types); after every successful operation the raw file is parsed by an independent reader and checked for well-formedness; enumerated scripts (equal sizes, fill levels, 2^k tails, foreign images, two long-lived objects, contexts left by the caller\'s exception)', 'level_text': "Exploration of operation histories: the machine starts from Tdf.new or from a compact image written by the reference codec (N in 1..16, 0..N live blocks of the nine writable and seven undecodable types, garbage in don't-care bytes), issues operations the model predicts to succeed and parses the file with reftdf.parse_container after each one: signature/version/N unchanged, every live range after the table and inside the file, no two live ranges overlapping, unused slots of size 0.", 'level_note': 'Trusted: reftdf.parse_container and well_formed_problems. Initial images: Tdf.new, compact images, images with padding between blocks (well-formed but not compact, as foreign files may be) and the BTS capture itself (2.1 MB, eight blocks); in the histories free slots always trail and point at end of data; files with unused slots in front of live blocks (left by another writer) are exercised with removals only (hole-table-removals) - adds on them are refused by the library (C07 covers that refusal). Out-of-order blocks are outside the documented algorithm and not generated. If an operation the model expects to succeed raises, the history is abandoned here and reported by C11.', 'design_ref': 'DESIGN.md section 4, C03', 'rule': 'case = {init image, ops}; non-trivial = the history removes a non-last live block and later adds one, or fills the table completely; distinct by sha1 of the history', 'assumptions': ['live blocks of the initial image are in table order with trailing free slots pointing at end of data']}
 
 GROUPS = {"C03"}
 REFUSALS = False
@@ -35,6 +35,11 @@ SUBS.append(Sub("foreign-image-scripts", run, kind="enum", enumerate=lambda tier
                 rule="well-formed files as other writers leave them (later unused slots carrying 0 / 64 / -1 / 2^31-1 / mixed values instead of the end of the data; blocks padded to "
                      "64 bytes) x table lengths {4,6,14} x 0..2 live blocks x scripts with two or more adds (api, setters, across a reopen, after removes); finite, enumerated",
                 nontrivial_required=False))
+SUBS.append(Sub("hole-table-removals", run, kind="enum", enumerate=lambda tier: container.hole_table_cases(), shards=(8, 16),
+                rule="well-formed files with unused slots IN FRONT OF live blocks (2..4 live blocks, 0..2 slots in front of each, 0/1/5 spare slots behind) x every order of "
+                     "removing up to three of them with remove_block (by type / by instance, a reopen in between or not); finite, enumerated", nontrivial_required=False))
 from ..core import optimised_child_sub  # noqa: E402
 SUBS.append(optimised_child_sub("C03", ["fill-level-scripts"]))
 TIME_BUDGET = {"quick": 150, "thorough": 1500}
+SUBS.append(optimised_child_sub("C03", ["fill-level-scripts"], flags=(), name="scripts-with-debug-logging", extra_env={"VERIF_LOGGING": "DEBUG"},
+                                what="logging.basicConfig(level=DEBUG): every logger is enabled for every level"))
